@@ -347,6 +347,37 @@ func HealthySessions(rng *rand.Rand, thorough bool) []Session {
 			[]SOp{{Op: "expect", N: 2}, {Op: "done1", X: 1, Logs: logs[2]}, {Op: "expect", N: 3}, {Op: "done1", X: 2, Logs: logs[3]},
 				{Op: "expect", N: 4}, {Op: "done1", X: 3, Logs: logs[5]}}))
 	}
+	// ATP v1 with overlapping Executes against a plugin that runs one step at a time (it reads the
+	// next work-start only after it has written the previous work-done). Which caller gets which
+	// result is not defined in v1; every Execute must return.
+	for _, k := range []int{2, 3, 5} {
+		var d []DOp
+		var sv []SOp
+		for i := 1; i <= k; i++ {
+			d = append(d, DOp{Op: "exec", R: run(i)})
+			sv = append(sv, SOp{Op: "expect", N: i + 1}, SOp{Op: "done1", X: i})
+		}
+		d = append(d, DOp{Op: "joinall"}, DOp{Op: "close"})
+		ss := hs(fmt.Sprintf("v1-overlap-%d", k), 1, d, sv)
+		ss.V1Strict = true
+		out = append(out, ss)
+	}
+	// Signals for run IDs that were never started, sent through the still open signalsToStep channel
+	// of an Execute that has returned (the client keeps serving it). The server answers each with a
+	// non-fatal report and, like the library's server, stops reading once 4-5 reports are unread. No
+	// execution is in flight, so nobody reads - until the next Execute, which must start reading
+	// before it writes its work-start.
+	{
+		d := []DOp{{Op: "exec", R: "r1", To: true}, {Op: "join", R: "r1"}}
+		for i := 0; i < 6; i++ {
+			d = append(d, DOp{Op: "sig", R: "r1", SR: fmt.Sprintf("ghost%d", i)})
+		}
+		d = append(d, DOp{Op: "exec", R: "r2"}, DOp{Op: "join", R: "r2"}, DOp{Op: "close"})
+		ss := hs("ghost-signals-then-execute", 3, d,
+			[]SOp{{Op: "expectws", R: "r1"}, {Op: "done", R: "r1", X: 1}, {Op: "expectws", R: "r2"}, {Op: "done", R: "r2", X: 2}, {Op: "expectdonelong"}})
+		ss.Backpressure = 3
+		out = append(out, ss)
+	}
 	// ATP v1
 	out = append(out, hs("v1-serial-1", 1, []DOp{{Op: "exec", R: "r1"}, {Op: "join", R: "r1"}, {Op: "close"}},
 		[]SOp{{Op: "expect", N: 2}, {Op: "done1", X: 1}}))
@@ -405,6 +436,13 @@ func faultBases() []Session {
 	out = append(out, unhealthy(hs("", 1,
 		[]DOp{{Op: "exec", R: "r1"}, {Op: "join", R: "r1"}, {Op: "exec", R: "r2"}, {Op: "join", R: "r2"}, {Op: "close"}},
 		[]SOp{{Op: "expect", N: 2}, {Op: "done1", X: 1, Logs: "v1 log line\n"}, {Op: "expect", N: 3}, {Op: "done1", X: 2, Logs: "v1 without line end"}}), "f-logs-v1"))
+	// error messages with long texts of multi-byte characters (1100-3000 bytes, far fewer characters),
+	// and of ASCII controls: a warning, a step-fatal error, a server-fatal error
+	out = append(out, unhealthy(hs("", 3,
+		[]DOp{{Op: "exec", R: "r1"}, {Op: "exec", R: "r2"}, {Op: "exec", R: "r3"}, {Op: "joinall"}, {Op: "exec", R: "r4"}, {Op: "join", R: "r4"}, {Op: "close"}},
+		[]SOp{{Op: "expectws", R: "r1"}, {Op: "expectws", R: "r2"}, {Op: "expectws", R: "r3"}, {Op: "err", R: "r1", Logs: "ja"}, {Op: "err", R: "r2", Logs: "ctl"},
+			{Op: "done", R: "r1", X: 1}, {Op: "err", R: "r2", SF: true, Logs: "ru"}, {Op: "err", R: "r3", Logs: "mix"}, {Op: "err", R: "r3", Logs: "ctl3"}, {Op: "done", R: "r3", X: 3},
+			{Op: "expectws", R: "r4"}, {Op: "err", R: "", SF: true, VF: true, Logs: "ja"}, {Op: "eof"}}), "f-long-errors"))
 	// results nobody waits for: a result repeated after its run has ended, results and step-fatal
 	// errors for run IDs that were never started, before and between the real answers
 	out = append(out, unhealthy(hs("", 3,
